@@ -284,6 +284,8 @@ def kind_term(e):
         return "KProbeStop %d" % idn(a[0])
     if k == "state-set":
         return "KStateSet %d %s %s" % (idn(a[0]), TST[a[1]], TST[a[2]])
+    if k == "drain-begin":
+        return "KDrainBegin %d %s %d" % (idn(a[0]), TST[a[1]], a[2])
     if k == "drain-snapshot":
         return "KDrainSnapshot %d %s" % (idn(a[0]), "[" + ";".join("(%d, %s)" % (rid(x.rstrip("!")), bool_lit(x.endswith("!"))) for x in a[1]) + "]")
     if k == "drain-deadline":
@@ -305,7 +307,14 @@ def kind_term(e):
 
 def trace_term(events):
     items = []
+    seen = set()
     for e in events:
+        for a in e["args"]:
+            for x in (a if isinstance(a, list) else [a]):
+                if isinstance(x, str) and re.fullmatch(r"[ST]\d+:.*", x, re.S) and x not in seen:
+                    seen.add(x)
+                    items.append("mkEv %d AEnv (%s %d %s)" % (e["t"], "KSvcName" if x[0] == "S" else "KTargetName", idn(x),
+                                                              str_lit(x.split(":", 1)[1].encode("utf-8", "surrogateescape"))))
         items.append("mkEv %d %s (%s)" % (e["t"], actor_term(e["g"]), kind_term(e)))
         if e["kind"] == "issue" and len(e["args"]) >= 6:
             a = e["args"]
